@@ -417,12 +417,53 @@ def c18(tier):
     return out
 
 
+def hbc_shapes(E):
+    import itertools
+    out = [()]
+    for r in range(1, E + 1):
+        for perm in itertools.permutations(range(1, E + 1), r):
+            out.append(perm)
+    return out
+
+
+def c11(tier):
+    out = []
+    ops = ['write', 'hb', 'time', 'events', 'state']
+    for E in ((2,) if tier == 'quick' else (2, 3)):
+        for sh in hbc_shapes(E):
+            for op in range(5):
+                for wk, run in [(w, r) for w in (range(1, E + 1) if op == 0 else ((1, 2, 3, 4, 6) if op == 2 else (1,))) for r in range(1 << E)]:
+                    if op >= 3 and tier == 'quick' and len(sh) not in (0, E):
+                        continue
+                    if any(((run >> (x - 1)) & 1) == 0 for x in ()) or (run & ~sum(1 << (x - 1) for x in sh)):
+                        continue      # only active entries can have a running monitor
+                    if op >= 3 and run not in (0, sum(1 << (x - 1) for x in sh)):
+                        continue
+                    if op == 2 and run == 0:
+                        continue
+                    defs = dict(NODE_DEFS)
+                    defs.update({'OP': op, 'WK': wk, 'RUN': run, 'TK': wk, 'OD_HBC_E': E, 'SHAPE': '{' + ','.join(str(x) for x in (sh or (0,))) + '}', 'SHAPEN': len(sh),
+                                 'CO_VERIF_SDO_BUF_SEG': 2, 'OD_TMR_N': E})
+                    uw = node_unwind(2)
+                    uw.update(lss_unwind())
+                    uw.update({'CONmtModeDecode': 7, 'COTNmtHbConsInit': E + 2, 'CONmtHbConsActivate': E + 2, 'CONmtHbConsCheck': E + 2, 'CONmtLastHbState': E + 2,
+                               'CONmtGetHbEvents': E + 2, 'COTmrDelete': E + 1, 'COTmrInsert': E + 1, 'COTmrRemove': E + 2, 'COTmrProcess': E + 1, 'check_chain': E + 2,
+                               'COTmrReset': E + 1, 'CoVerifTmrPool': E + 1,
+                               'COSyncInit': 4, 'COTmrClear': 4})
+                    out.append(Inst('hbc_step_e%d_s%s_r%d_%s%s' % (E, ''.join(str(x) for x in sh) or '0', run, ops[op], ('%d' % wk) if op in (0, 2) else ''), 'hbc_step.c', defs,
+                                    unwind=20, unwindset=uw, objbits=10, harness_only=['OP', 'WK', 'SHAPE', 'SHAPEN', 'RUN', 'TK'], family='hbc_step',
+                                    bounds='%d consumer entries, active chain %s, running monitors mask %d, operation %s%s; node ids, times 1..5 ms, counters, states symbolic' % (
+                                        E, list(sh), run, ops[op], (' to entry %d' % wk) if op == 0 else ((' of %d ticks' % wk) if op == 2 else ''))))
+    return out
+
+
 def c01(tier):
     return sdo_step_insts(tier) + sdo_two_servers(tier)
 
 
 PROPS = {
     'C01': c01,
+    'C11': c11,
     'C18': c18,
     'C15': c15,
     'C09': c09,
